@@ -5,6 +5,8 @@ import (
 	"fmt"
 	"os"
 	"runtime"
+	"runtime/debug"
+	"runtime/pprof"
 	"sort"
 	"strconv"
 	"strings"
@@ -17,18 +19,25 @@ func main() {
 		fmt.Fprintln(os.Stderr, "usage: vcheck run <property> [--tier quick|thorough] | harness <name> k=v... | replay <file> | selfcheck")
 		os.Exit(2)
 	}
+	if pf := os.Getenv("VERIF_CPUPROFILE"); pf != "" {
+		f, _ := os.Create(pf)
+		pprof.StartCPUProfile(f)
+		defer pprof.StopCPUProfile()
+	}
+	debug.SetGCPercent(400)
+	code := 2
+	defer func() { pprof.StopCPUProfile(); os.Exit(code) }()
 	switch os.Args[1] {
 	case "harness":
-		os.Exit(cmdHarness(os.Args[2:]))
+		code = cmdHarness(os.Args[2:])
 	case "run":
-		os.Exit(cmdRun(os.Args[2:]))
+		code = cmdRun(os.Args[2:])
 	case "replay":
-		os.Exit(cmdReplay(os.Args[2:]))
+		code = cmdReplay(os.Args[2:])
 	case "selfcheck":
-		os.Exit(cmdSelfcheck(os.Args[2:]))
+		code = cmdSelfcheck(os.Args[2:])
 	default:
 		fmt.Fprintln(os.Stderr, "unknown command", os.Args[1])
-		os.Exit(2)
 	}
 }
 
